@@ -35,6 +35,10 @@ func isBufioWriterMethod(cc *ssa.CallCommon) (string, ssa.Value, bool) {
 // it runs only as a synchronous part of Write, is called on Write's own
 // receiver, and Write returns its result unchanged on every path after the
 // call. respIdx is the index (in the emitter's parameters) of the Response.
+// emitterTakesBytes: the frame emitter is handed the encoded frame
+// (r.packet().Bytes() of Write's response) instead of the response.
+var emitterTakesBytes = map[*ssa.Function]bool{}
+
 func (c *Ctx) frameEmitter() (emit *ssa.Function, respIdx int, why string) {
 	write := c.fn(G, "(*ResponseWriter).Write")
 	if write == nil {
@@ -89,6 +93,15 @@ func (c *Ctx) frameEmitter() (emit *ssa.Function, respIdx int, why string) {
 		for i, a := range call.Common().Args {
 			if an.Strip(a) == ssa.Value(write.Params[1]) {
 				respIdx = i
+			}
+		}
+		if respIdx < 0 {
+			// ... or the response already encoded: r.packet().Bytes() of Write's response
+			for i, a := range call.Common().Args {
+				if an.Canon(a) == "github.com/go-asn1-ber/asn1-ber.(*Packet).Bytes($1.packet().Packet)" {
+					respIdx = i
+					emitterTakesBytes[h] = true
+				}
 			}
 		}
 		if respIdx < 0 {
@@ -347,6 +360,9 @@ func checkC05(c *Ctx) {
 		args := w.Common().Args
 		ok := false
 		detail := "argument is " + an.Path(args[1])
+		if emitterTakesBytes[write] && an.Strip(args[1]) == respOf(write, respIdx) {
+			ok = true // the parameter Write fills with r.packet().Bytes() of its response (frameEmitter)
+		}
 		if call, isC := an.Strip(args[1]).(*ssa.Call); isC && an.CalleeIs(call.Common(), an.PkgBer, "(*Packet).Bytes") {
 			// receiver: load of .Packet of (invoke r.packet())
 			if base, okf := fieldLoad(call.Common().Args[0], G, "packet", "Packet"); okf {
